@@ -2693,7 +2693,7 @@ def _record_to_dict(record: Record) -> Mapping[str, str | list[str]]:
         rv["prefix_synonyms"] = sorted(record.prefix_synonyms)
     if record.uri_prefix_synonyms:
         rv["uri_prefix_synonyms"] = sorted(record.uri_prefix_synonyms)
-    if record.pattern:
+    if record.pattern is not None:
         rv["pattern"] = record.pattern
     return rv
 
